@@ -365,23 +365,38 @@ def run(ctx):
     where = 'src/PseudoNetCDF/%s ioapi_base.copy' % IO
     basecall = [c for c in walk_expr(cp) if isinstance(c, ast.Call) and dotted(c.func) == 'PseudoNetCDFFile.copy']
     ok1 = bool(basecall) and isinstance(kw(basecall[0], 'variables'), ast.Constant) and kw(basecall[0], 'variables').value is False
-    loops = [st for st in iter_stmts(cp.body) if isinstance(st, ast.For) and norm(st.iter) == 'self.variables.items()']
+    # path-wise (paths.py): inside the variable loop a variable is copied exactly on the paths taken for names other than TFLAG;
+    # every path of the function taken for props and dimensions ends after updatetflag()
+    from .. import paths as _paths
+    loops = [st for st in iter_stmts(cp.body) if isinstance(st, ast.For) and norm(st.iter) in ('self.variables.items()', 'self.variables', 'self.variables.keys()')]
     ok2 = False
-    filt = None
     if loops:
         lp = loops[0]
-        kname = lp.target.elts[0].id if isinstance(lp.target, ast.Tuple) else None
-        for st in iter_stmts(lp.body):
-            if isinstance(st, ast.If):
-                t = norm(st.test)
-                if kname and (t == "not %s.endswith('TFLAG')" % kname or t == "%s != 'TFLAG'" % kname):
-                    filt = st
-        if filt is not None:
-            calls = [c for c in walk_expr(filt) if isinstance(c, ast.Call) and dotted(c.func) == 'PseudoNetCDFFile.copyVariable']
-            ok2 = bool(calls)
-    last = cp.body[-2] if isinstance(cp.body[-1], ast.Return) and len(cp.body) >= 2 else None
-    ok3 = isinstance(last, ast.If) and norm(last.test) in ('props and dimensions', 'dimensions and props') and \
-        any(isinstance(c, ast.Call) and (dotted(c.func) or '').endswith('.updatetflag') for c in walk_expr(last))
+        kname = lp.target.elts[0].id if isinstance(lp.target, ast.Tuple) else (lp.target.id if isinstance(lp.target, ast.Name) else None)
+        tests = ("%s.endswith('TFLAG')" % kname, "%s == 'TFLAG'" % kname)
+        ncopy, bad = 0, False
+        for pth in _paths.enumerate_paths(lp.body):
+            if pth.exit[0] == 'raise':
+                continue
+            copies = [c for c, st in pth.calls(attr='copyVariable')]
+            istf = [pth.polarity(t) for t in tests if pth.polarity(t) is not None]
+            if copies:
+                ncopy += 1
+                if not istf or istf[-1] is not False:
+                    bad = True          # TFLAG copied too (stale width)
+            elif istf and istf[-1] is False:
+                bad = True              # a non-TFLAG variable is skipped
+        ok2 = ncopy > 0 and not bad
+    ok3, last = False, None
+    nboth = 0
+    for pth in _paths.function_paths(cp):
+        if pth.exit[0] == 'raise' or not (pth.polarity('props') is True and pth.polarity('dimensions') is True):
+            continue
+        nboth += 1
+        if not pth.calls(attr='updatetflag'):
+            last = pth.stmts[-1] if pth.stmts else None
+            nboth = -10000
+    ok3 = nboth > 0
     for ok, oid, msg, node in (
             (ok1, 'base copy without variables', 'the base copy must be called with variables=False so that TFLAG is not copied with stale width', basecall[0] if basecall else cp),
             (ok2, 'non-TFLAG variables copied', 'every variable except TFLAG must be copied (TFLAG skipped so that updatetflag() rebuilds it); otherwise a structure-only copy keeps an all-zero TFLAG while SDATE/STIME hold the real start', loops[0] if loops else cp),
